@@ -1821,6 +1821,15 @@ func requiredLandmarkAlternativeMatch(input []rune, start, endAt int, alt syntax
 		if end-start < alt.MinRepeat {
 			return requiredLandmarkMatch{}, false
 		}
+		// The token can also be matched with fewer repeats than the text offers, and what it
+		// leaves behind may be (part of) the next landmark. Report the earliest end that
+		// satisfies this alternative so the rest of the chain is searched from there.
+		maxEnd := end
+		end = start + alt.MinRepeat
+		for alt.RequireWhitespaceAfter && end < maxEnd &&
+			(alt.TrailingWhitespaceSet == nil || !alt.TrailingWhitespaceSet.CharIn(input[end])) {
+			end++
+		}
 	} else {
 		return requiredLandmarkMatch{}, false
 	}
